@@ -8,8 +8,13 @@ PROP = "C10"
 LITS = ["a.b", "a*", "(x)", "[ab]", "a|b", "^$", "a\\b", "\"q\"", "a+b?", "{2}", "é(", "∀x.", "a b", "tab\there", "nl\nx", "\\d", "\\\\", "a-z",
         "#", "&&", "~", "x{1,2}", "(?i)a", ".*", "\\.", "É", "ß", "$1", "a\0b", "€", "-", "]", "[", "\\x41"]
 REGEXES = [r"\d+", r"\w+", r"[[:alpha:]]+", r"(?i)begin", r"\p{Greek}+", r"x{2,3}", r"(a|b)*c", r"[^a-c]x", r"\.\*", r"\x41\x{3b1}", r"[a-c&&[^b]]+",
-           r"a(?:bc)?d", r"\s\S", r"[\t ]+x", r"é+", r"(?i:é)x", r"[\d.]+", r"\u{1F600}", r"a{0}b", r"(ab|a)(c|bcd)", r"\\", r"[\]\[]", r"\-+", r"[a\-z]"]
-CANDS = ["", "a", "ab", "abc", "a.b", "axb", "aa", "A", "É", "é", "éé", "Éx", "éx", "α", "αβγ", "xx", "xxx", "xxxx", "c", "abc", "ababc", "dx", "ax", ".*", "..",
+           r"a(?:bc)?d", r"\s\S", r"[\t ]+x", r"é+", r"(?i:é)x", r"[\d.]+", r"\u{1F600}", r"a{0}b", r"(ab|a)(c|bcd)", r"\\", r"[\]\[]", r"\-+", r"[a\-z]", r"#.*", r"(?s)a.c", r"a.c", r"[^x]x", r"\s+x", r"(?R)a.c"]
+DOT = ("cls", [(10, 10)], True)          # rendered as `.` by rx.to_rust; [^\n] in the Coq model
+DOT_ASTS = [("cat", [("lit", "#"), ("star", DOT)]), ("cat", [("lit", "'"), DOT, ("lit", "'")]), ("cat", [("lit", "a"), ("plus", DOT), ("lit", "c")]),
+            ("cat", [DOT, ("lit", "y")]), ("plus", ("alt", [("cat", [("lit", "q"), DOT]), ("lit", "r")])), ("cat", [("lit", "<"), ("rep", DOT, 1, 3), ("lit", ">")])]
+DOT_CANDS = ["#abc\r", "#abc", "#\r\r", "#a\nb", "#", "'\r'", "'x'", "'\n'", "a\rc", "a\r\nc", "a\nc", "abc", "a\x0b\x0cc", "\ry", "\ny", "xy", "q\rr", "q\n", "<\r>", "<\r\r\r>", "<\n>",
+             "<\u0085>", "<\u2028>", "a\u2029c"]
+CANDS = ["\r", "\n", "\r\n", " \r", "\rx", "a\rx", "x\r", "", "a", "ab", "abc", "a.b", "axb", "aa", "A", "É", "é", "éé", "Éx", "éx", "α", "αβγ", "xx", "xxx", "xxxx", "c", "abc", "ababc", "dx", "ax", ".*", "..",
          "Aα", "a\tx", " x", "12", "1.5", "abcd", "ad", "abcbcd", "abc", "\\", "]", "[", "--", "-", "z", "begin", "BEGIN", "Begin", "b", "a b", "  ", " a", "😀", "0"]
 
 
@@ -73,7 +78,7 @@ def run(tier):
         for c in cands:
             cases.append((tid, c)); kind[len(cases) - 1] = ("lit", s, em)
     fragment = [rx.rand_regex(r, 2) for _ in range(15 if tier == "quick" else 200)]
-    regexes = [(g, None) for g in REGEXES] + [(rx.to_rust(a), a) for a in fragment if not rx.nullable(a)]
+    regexes = [(g, None) for g in REGEXES] + [(rx.to_rust(a), a) for a in DOT_ASTS] + [(rx.to_rust(a), a) for a in fragment if not rx.nullable(a)]
     for i, (g, ast) in enumerate(regexes):
         em, out, text = emitted_for(lal, tag, 'r#"%s"#' % g)
         if em is None:
@@ -84,7 +89,7 @@ def run(tier):
         nre += 1
         tables["o%d" % i] = [(g, False)]
         tables["e%d" % i] = [(em, False)]
-        cands = list(CANDS) + ([rx.sample(ast, r) for _ in range(6)] if ast else [])
+        cands = list(CANDS) + ([rx.sample(ast, r) for _ in range(6)] if ast else []) + (DOT_CANDS if ast in DOT_ASTS else [])
         for c in cands:
             cases.append(("o%d" % i, c)); kind[len(cases) - 1] = ("orig", g, em, ast)
             cases.append(("e%d" % i, c)); kind[len(cases) - 1] = ("emit", g, em, ast)
